@@ -208,12 +208,26 @@ func runHbqCase(c hbqCase) (res hbqRes) {
 			time.Sleep(50 * time.Microsecond)
 		}
 	}()
+	granted := 0
+	isClosed := func() bool {
+		select {
+		case <-h.closed:
+			return true
+		default:
+			return false
+		}
+	}
+	// loopParked: recvLoop has come back for read number granted+1 (and waits for its permit), or has ended
 	loopParked := func() bool {
-		// recvLoop is waiting for its next permit, or has returned
 		deadline := time.Now().Add(10 * time.Second)
 		for {
-			s := goroutineState([]string{"dtls.(*hbConn).recvLoop("}, nil)
-			if s == "" || s == "blocked" {
+			st.mu.Lock()
+			entered := st.readEntered
+			st.mu.Unlock()
+			if entered >= granted+1 && goroutineState([]string{"dtls.(*hbConn).recvLoop("}, nil) == "blocked" {
+				return true
+			}
+			if isClosed() && goroutineState([]string{"dtls.(*hbConn).recvLoop("}, nil) == "" {
 				return true
 			}
 			if time.Now().After(deadline) {
@@ -230,17 +244,13 @@ func runHbqCase(c hbqCase) (res hbqRes) {
 		var o hbqObs
 		switch op {
 		case 'r':
-			if goroutineState([]string{"dtls.(*hbConn).recvLoop("}, nil) != "" {
+			if !isClosed() {
 				st.permits <- struct{}{}
-				// wait until the permit has been taken and the loop is parked again (or gone)
-				deadline := time.Now().Add(10 * time.Second)
-				for len(st.permits) > 0 && time.Now().Before(deadline) {
-					time.Sleep(20 * time.Microsecond)
-				}
-				if !loopParked() {
-					res.Note = "recvLoop did not park"
-					return
-				}
+				granted++
+			}
+			if !loopParked() {
+				res.Note = "recvLoop did not park"
+				return
 			}
 		case 'R':
 			if pending == nil {
